@@ -227,6 +227,18 @@ def aux_clone_cases():
                 ops += [(o[0], 0) + sc, (o[0], 1) + sc]
             ops += [("r", 1)] + [(o[0], 1) + tuple(o[2:]) for o in long_feed(ind, 3)]
             cases.append(Case("aux_clonefrom_%s_%s" % (ind, tag), ops, dump=(0, 1), meta={"ind": ind, "aux": True, "p": psrc}))
+        # a target whose state differs from the source's only in the sign of a zero (0.0 == -0.0: a clone_from that skips the copy
+        # "when nothing changed" keeps the wrong zero), then both fed on
+        k = nper(ind)
+        pr3 = (3, 3 if k >= 2 else 0, 2 if k >= 3 else 0, 2.0 if ind in HAS_MULT else 0.0)
+        def mk(slot, x):
+            return ("b", slot, x, x, x, x, 1.0) if ind in NO_SCALAR else ("n", slot, x)
+        ops = [new_op(0, ind, pr3), new_op(1, ind, pr3)]
+        ops += [mk(0, 5.0), mk(0, -0.0), mk(0, 1.0), mk(1, 5.0), mk(1, 0.0), mk(1, 1.0), ("c", 0, 1)]
+        for x in (7.0, 8.0, -0.0, 0.0, 9.0, 2.0):
+            ops += [mk(0, x), mk(1, x)]
+        ops += [("r", 1), mk(1, 1.0)]
+        cases.append(Case("aux_clonefrom_%s_zerosign" % ind, ops, dump=(0, 1), meta={"ind": ind, "aux": True, "p": 3}))
     return cases
 
 
